@@ -155,8 +155,37 @@ def sval(prog, fn, t, depth=0):
             return [("alt", [sval(prog, fn, t[2][0], depth + 1), sval(prog, fn, t[2][1], depth + 1)])]
         if c.endswith("String::new") and not t[2]:
             return [("lit", "")]
+        if last in ("concat", "join") and t[2]:
+            arr = strip(t[2][0])
+            while arr[0] in ("cast", "ref"):
+                arr = strip(arr[2] if arr[0] == "cast" else arr[1])
+            sep_ok = last == "concat" or (len(t[2]) == 2 and strip(t[2][1])[0] == "const" and strip(t[2][1])[2] == "")
+            if arr[0] == "agg" and arr[1][0] == "array" and sep_ok:
+                out_ = []
+                for e_ in arr[2]:
+                    out_.extend(sval(prog, fn, e_, depth + 1))
+                return out_
         if last in ("collect", "from_iter", "concat") and t[2]:
             it = strip(t[2][0])
+            # strings.concat() where strings = iter.map(f).collect::<Result<Vec<String>>>()? : look through the collection
+            for _ in range(6):
+                if it[0] == "ok":
+                    it = strip(it[1])
+                elif it[0] == "call" and it[2] and it[1].rsplit("::", 1)[-1] in ("deref", "as_slice", "as_ref", "borrow", "collect", "from_iter", "into_iter", "iter"):
+                    if it[1].rsplit("::", 1)[-1] in ("collect", "from_iter") and last == "concat":
+                        it = strip(it[2][0])
+                    elif it[1].rsplit("::", 1)[-1] in ("deref", "as_slice", "as_ref", "borrow"):
+                        it = strip(it[2][0])
+                    else:
+                        break
+                else:
+                    break
+            if it[0] == "call" and it[1].rsplit("::", 1)[-1] == "map" and len(it[2]) == 2:
+                fi = strip(it[2][1])
+                if fi[0] == "const" and isinstance(fi[2], tuple) and fi[2] and fi[2][0] == "fn" and fi[2][1] in prog.fns and "String" in prog.fns[fi[2][1]].ret_ty():
+                    # map(Type::xml_string): the named serialiser once per element
+                    elem = ("ok", ("call", "<I as std::iter::Iterator>::next", (it[2][0],), -1))
+                    return [("call", fi[2][1], (elem,), fn.path, t[3], ())]
             if it[0] == "call" and it[1].rsplit("::", 1)[-1] == "map" and len(it[2]) == 2:
                 cl = strip(it[2][1])
                 if cl[0] == "agg" and cl[1][0] == "closure" and cl[1][1] in prog.fns:
@@ -463,6 +492,15 @@ def expand(prog, fn, toks, subst=None, depth=0, stack=()):
                 out.extend(expand(prog, fn, alt, subst, depth, stack))
         elif tk[0] == "call":
             c, args = tk[1], [substitute(a, subst) for a in tk[2]]
+            # `let tag = match kind { A => "a", B => "b" }; child.xml_string(tag)`: one instance of the call per literal
+            ks = [i for i, a in enumerate(args) if strip(a)[0] == "phi" and len(strip(a)[1]) > 1 and all(strip(x)[0] == "const" and isinstance(strip(x)[2], str) for x in strip(a)[1])]
+            if len(ks) == 1 and not tk[1].startswith("foreach:"):
+                k = ks[0]
+                for x in strip(args[k])[1]:
+                    one = list(args)
+                    one[k] = x
+                    out.extend(expand(prog, fn, [(tk[0], tk[1], tuple(one)) + tuple(tk[3:])], None, depth, stack))
+                continue
             is_foreach = c.startswith("foreach:")
             if is_foreach:
                 c = c[len("foreach:"):]
